@@ -576,7 +576,38 @@ def check_pair(crate, rep, cfg):
     # parser: Break/Continue only inside a loop and not across a capture; Block only where blocks are allowed
     pt = crate.one("parsing::parser::Parser::<'a>::parse_tag")
     ef = EdgeFacts(pt, crate)
-    in_loop = set(pt.locals_named("in_loop"))
+    from props.c02 import const_of
+    from props import c06 as _c06
+
+    def ctx_eq_edges(variant):
+        """(switch block, true-edge target, call block) for every `ctx == BodyContext::<variant>` test"""
+        out = []
+        for sb in sorted(pt.reachable):
+            if pt.term(sb)["k"] != "switch":
+                continue
+            for tgt, fl in ef.facts_for_switch(sb).items():
+                for f in fl:
+                    if f[0] == "call" and f[1].endswith("::eq") and f[3] is True:
+                        ct = pt.term(f[4])
+                        if any(("parsing::parser::BodyContext::" + variant) in ((const_of(pt, a) or {}).get("pagg") or []) for a in ct["args"]):
+                            out.append((sb, tgt, f[4]))
+        return out
+    loop_edges = ctx_eq_edges("ForLoop")
+    capt_edges = ctx_eq_edges("Capture")
+    # the "found a loop" flag, by shape: a bool local set to false, and set to true only under `ctx == BodyContext::ForLoop`
+    in_loop = set()
+    for l, ds in pt.defs.items():
+        if pt.local_ty(l) != "bool":
+            continue
+        cs = [(d[0], d[3]["op"].get("v")) for d in ds if not d[2] and d[3]["k"] == "use" and d[3]["op"]["k"] == "const"]
+        if len(cs) != len(ds) or not cs:
+            continue
+        trues = [bb for bb, v in cs if str(v) == "1"]
+        falses = [bb for bb, v in cs if str(v) == "0"]
+        if trues and falses and all(any(pt.dominates(tgt, tb) and tgt != sb for sb, tgt, _ in loop_edges) for tb in trues):
+            in_loop.add(l)
+    if not in_loop:
+        rep.anchor_missing("C07.PAIR", "the found-a-loop flag of the break/continue context scan in parse_tag (bool set only under `ctx == BodyContext::ForLoop`)")
     for v in ("Break", "Continue"):
         sites = list(find_aggs(pt, "parsing::ast::Node", v))
         ok = bool(sites)
@@ -585,7 +616,6 @@ def check_pair(crate, rep, cfg):
             for sb in sorted(pt.reachable):
                 t = pt.term(sb)
                 if t["k"] == "switch" and t["op"]["k"] in ("copy", "move") and not t["op"]["pl"]["p"] and pt.dominates(sb, bb) and sb != bb:
-                    srcs = {t["op"]["pl"]["l"]}
                     for (b2, i2, dp, rv) in pt.defs.get(t["op"]["pl"]["l"], []):
                         if rv["k"] == "un" and rv["op"] == "Not" and rv["a"]["k"] in ("copy", "move"):
                             x = rv["a"]["pl"]["l"]
@@ -599,16 +629,29 @@ def check_pair(crate, rep, cfg):
                             if pt.dominates(t["otherwise"], bb):
                                 dom = True
             ok = ok and dom
-        rep.add("C07.PAIR", "C07.PAIR:parser:%s-in-loop" % v, ok, pt.where(sites[0][0]) if sites else pt.where(0), "Node::%s is only built on the `in_loop` edge of the body-context "
-                "scan (so the compiler's get_current_loop().unwrap() and the jump stay inside a loop)" % v + ("" if ok else " — VIOLATED"))
-    # the scan refuses a Capture context met before the loop
-    capt = 0
-    for bb, idx, s in pt.stmts():
-        for op in iter_operands(s):
-            if op["k"] == "const" and "parsing::parser::BodyContext::Capture" in (op.get("pagg") or []):
-                capt += 1
-    rep.add("C07.PAIR", "C07.PAIR:parser:capture-blocks-break", capt >= 1, pt.where(0), "the break/continue scan compares each enclosing context with BodyContext::Capture and errors "
-            "(a jump may not cross an EndCapture)" + ("" if capt >= 1 else " — VIOLATED"))
+        rep.add("C07.PAIR", "C07.PAIR:parser:%s-in-loop" % v, ok, pt.where(sites[0][0]) if sites else pt.where(0), "Node::%s is only built on the found-a-loop edge of the "
+                "body-context scan (so the compiler's get_current_loop().unwrap() and the jump stay inside a loop)" % v + ("" if ok else " — VIOLATED"))
+    # the scan refuses a Capture context met before the loop: the true edge of `ctx == Capture` cannot reach the construction of Break/Continue,
+    # it sits in the same loop as the ForLoop test, and that loop walks body_contexts innermost-first (Rev)
+    jump_blocks = {bb for v in ("Break", "Continue") for bb, idx, s in find_aggs(pt, "parsing::ast::Node", v)}
+    ok = bool(capt_edges) and bool(loop_edges)
+    why = []
+    for sb, tgt, cb in capt_edges:
+        if pt.reach_from(tgt) & jump_blocks:
+            ok = False
+            why.append("a Break/Continue node is reachable after `ctx == Capture` held")
+    scan_loops = [L for L in pt.loops() if any(cb in L for _, _, cb in loop_edges)]
+    if not scan_loops or not all(any(cb in L for L in scan_loops) for _, _, cb in capt_edges):
+        ok = False
+        why.append("the Capture test is not in the loop that looks for the ForLoop context")
+    for L in scan_loops:
+        nexts = [t for bb, t in pt.calls(sorted(L)) if callee_def(t).endswith("Iterator::next")]
+        if not nexts or not all("Rev<" in (t["atys"][0] if t["atys"] else "") for t in nexts):
+            ok = False
+            why.append("the scan does not walk body_contexts in reverse (innermost first)")
+    rep.add("C07.PAIR", "C07.PAIR:parser:capture-blocks-break", ok, pt.where(capt_edges[0][0]) if capt_edges else pt.where(0), "the break/continue scan walks the enclosing "
+            "contexts innermost-first, and meeting BodyContext::Capture before the loop can only end in the error return (a jump may not cross an EndCapture)"
+            + ("" if ok else " — VIOLATED: " + "; ".join(why or ["scan idiom not recognised"])))
     sites = list(find_aggs(pt, "parsing::ast::Node", "Block"))
     ok = bool(sites)
     for bb, idx, s in sites:
